@@ -719,22 +719,7 @@ private def treeEnv : Env := { blocks := [
 
 example : ancestors treeEnv 6 5 = [5, 4, 2, 1] ∧ undoTodo treeEnv 3 5 = ([3], [4, 5]) := by decide
 
-private theorem treeEnv_lower : ParentLower treeEnv := by
-  intro b p h
-  by_cases hb : b = 1 ∨ b = 2 ∨ b = 3 ∨ b = 4 ∨ b = 5
-  · rcases hb with rfl | rfl | rfl | rfl | rfl <;> revert h <;> simp [treeEnv, Env.block, lookup] <;>
-      (intro h; subst h; decide)
-  · have : lookup treeEnv.blocks b = none := by
-      simp only [not_or] at hb
-      obtain ⟨h1, h2, h3, h4, h5⟩ := hb
-      have e1 : ¬ 1 = b := fun x => h1 x.symm
-      have e2 : ¬ 2 = b := fun x => h2 x.symm
-      have e3 : ¬ 3 = b := fun x => h3 x.symm
-      have e4 : ¬ 4 = b := fun x => h4 x.symm
-      have e5 : ¬ 5 = b := fun x => h5 x.symm
-      simp [treeEnv, lookup, e1, e2, e3, e4, e5]
-    simp [Env.block, this] at h
-    cases h
+private theorem treeEnv_lower : ParentLower treeEnv := parentLower_of_blocks _ (by decide)
 
 example : ParentLower treeEnv ∧ (treeEnv.block 5).id = 5 ∧
     (walk treeEnv { pointer := 3 } 0 5 false).2 = true ∧ (walk treeEnv { pointer := 3 } 0 5 false).1.pointer = 5 ∧
@@ -1050,5 +1035,115 @@ theorem undoBlock_play (e : Env) (s : St) (lh : Int) (b : Block) (hp : s.pool = 
 
 example : (play blkEnv blkSt 0 blkB).2 = .ok ∧ blkSt.pool = [] ∧
     (undoBlock blkEnv (play blkEnv blkSt 0 blkB).1 blkB false).U = blkSt.U := by decide
+
+-- ================================================================== the state at a block is a function of its chain
+
+/-- the canonical state of block `b` over a base state `g`: the blocks on the path from the root to `b` (as
+`ancestors` finds it), replayed oldest first — what a fresh replica computes -/
+def canon (e : Env) (g : St) (b : Nat) : St :=
+  replayChain e (ancestors e (e.blocks.length + 1) b).reverse g
+
+theorem replayChain_append (e : Env) (l1 l2 : List Nat) (s : St) :
+    replayChain e (l1 ++ l2) s = replayChain e l2 (replayChain e l1 s) := by
+  unfold replayChain; rw [List.foldl_append]
+
+theorem chainValid_append (e : Env) (l1 l2 : List Nat) (r : St) (h : ChainValid e (l1 ++ l2) r) :
+    ChainValid e l1 r ∧ ChainValid e l2 (replayChain e l1 r) := by
+  induction l1 generalizing r with
+  | nil => exact ⟨trivial, h⟩
+  | cons b0 rest ih =>
+    obtain ⟨h1, h2⟩ := h
+    obtain ⟨i1, i2⟩ := ih _ h2
+    exact ⟨⟨h1, i1⟩, i2⟩
+
+/-- the canonical states of the tip and of the destination are replays of `undo.reverse` / `todo` on one and the same
+state `R` (the canonical state of their lowest common ancestor, or the base state if they have none) -/
+theorem canon_split (e : Env) (g : St) (cur dest : Nat) (hpl : ParentLower e) :
+    ∃ pre, (ancestors e (e.blocks.length + 1) cur).reverse = pre ++ (undoTodo e cur dest).1.reverse ∧
+      canon e g cur = replayChain e (undoTodo e cur dest).1.reverse (replayChain e pre g) ∧
+      canon e g dest = replayChain e (undoTodo e cur dest).2 (replayChain e pre g) := by
+  obtain ⟨_, _, hsplit⟩ := undoTodo_split e cur dest hpl
+  unfold canon
+  rcases hsplit with ⟨h1, h2, _⟩ | ⟨lca, r1, r2, h1, h2, _⟩
+  · refine ⟨[], by rw [← h1]; rfl, by rw [← h1]; rfl, ?_⟩
+    rw [h2, List.reverse_reverse]; rfl
+  · have e1 := ancestors_tail_eq e hpl cur lca _ r1 h1
+    have e2 := ancestors_tail_eq e hpl dest lca _ r2 h2
+    have hr : r1 = r2 := by
+      have := e1.trans e2.symm
+      simpa using this
+    subst hr
+    refine ⟨(lca :: r1).reverse, ?_, ?_, ?_⟩
+    · rw [h1, List.reverse_append]
+    · rw [h1, List.reverse_append, replayChain_append]
+    · rw [h2, List.reverse_append, List.reverse_reverse, replayChain_append]
+
+/-- **the state after a successful walk is the canonical state of the destination, with the old pool re-admitted.**
+Block tree with parent links strictly down in height; `g` a well-formed base state; the chain of the current tip
+satisfies the side conditions of the block theorem (`ChainValid`, from the root), the pool those of the transaction
+theorem (`PoolValid`); the state refines "canonical state of the tip, pool applied". Then after a successful
+non-pruning walk to `dest` the state refines — same UTXO rows, same version of every key, same total, same live key
+table — and has the pool of: the canonical state of `dest` (empty pool) with the old pool re-admitted oldest first.
+Nothing of the branch the node came from is left. -/
+theorem walk_canonical (e : Env) (s : St) (lh : Int) (dest : Nat) (g : St) (hpl : ParentLower e)
+    (hok : (walk e s lh dest false).2 = true) (hinv : KVInv e g)
+    (hchain : ChainValid e (ancestors e (e.blocks.length + 1) s.pointer).reverse g)
+    (hpool : PoolValid e s.pool (canon e g s.pointer))
+    (hs : TRefines s (applyPool e s.pool (canon e g s.pointer))) :
+    TRefines (walk e s lh dest false).1
+      (s.pool.foldl (fun st i => (doTx e st lh i).1) { canon e g dest with pool := [] }) ∧
+    (walk e s lh dest false).1.pool =
+      (s.pool.foldl (fun st i => (doTx e st lh i).1) { canon e g dest with pool := [] }).pool := by
+  obtain ⟨pre, h1, h2, h3⟩ := canon_split e g s.pointer dest hpl
+  rw [h1] at hchain
+  obtain ⟨c1, c2⟩ := chainValid_append e pre _ g hchain
+  rw [h2] at hpool hs
+  rw [h3]
+  exact walk_refines_full e s lh dest (replayChain e pre g) hok (replayChain_KVInv e pre g c1 hinv) c2 hpool hs
+
+/-- **the state at a block is a function of its chain**: two nodes — whatever tips they are on and however they got
+there — whose states refine their canonical states and whose pools are empty, after successful walks to the same
+block show the same tables: every UTXO row, the version of every key, the total -/
+theorem walk_confluent (e : Env) (s s' : St) (lh lh' : Int) (dest : Nat) (g : St) (hpl : ParentLower e)
+    (hinv : KVInv e g)
+    (hok : (walk e s lh dest false).2 = true) (hok' : (walk e s' lh' dest false).2 = true)
+    (hp : s.pool = []) (hp' : s'.pool = [])
+    (hchain : ChainValid e (ancestors e (e.blocks.length + 1) s.pointer).reverse g)
+    (hchain' : ChainValid e (ancestors e (e.blocks.length + 1) s'.pointer).reverse g)
+    (hs : TRefines s (canon e g s.pointer)) (hs' : TRefines s' (canon e g s'.pointer)) :
+    ObsT (walk e s lh dest false).1 (walk e s' lh' dest false).1 := by
+  have a := (walk_canonical e s lh dest g hpl hok hinv hchain (by rw [hp]; trivial) (by rw [hp]; exact hs)).1
+  have b := (walk_canonical e s' lh' dest g hpl hok' hinv hchain' (by rw [hp']; trivial) (by rw [hp']; exact hs')).1
+  rw [hp] at a
+  rw [hp'] at b
+  exact a.obs.trans b.obs.symm
+
+-- non-vacuity: the tree and node of the `walk_refines` example, now from the base state below block 1
+private def wkG : St := { U := [((0, 0), ⟨"u0", 5, 0⟩)], total := 5 }
+private def wkS' : St := { applyPool wkEnv [22] (canon wkEnv wkG 2) with pool := [22] }
+
+example : ParentLower wkEnv := parentLower_of_blocks _ (by decide)
+example : wkS'.pointer = 2 ∧ wkS'.pool = [22] ∧ (walk wkEnv wkS' 0 3 false).2 = true ∧
+    ancestors wkEnv (wkEnv.blocks.length + 1) wkS'.pointer = [2, 1] := by decide
+example : KVInv wkEnv wkG := KVInv_empty wkEnv wkG rfl rfl
+example : TRefines wkS' (applyPool wkEnv [22] (canon wkEnv wkG wkS'.pointer)) :=
+  (TRefines.refl _).of_tables ⟨rfl, rfl, rfl, rfl⟩ ⟨rfl, rfl, rfl, rfl⟩
+example : ChainValid wkEnv [2, 1].reverse wkG := by
+  refine ⟨⟨⟨0, fwd_of_res _ _ _ _ _ (by decide)⟩, ?_, by decide, ?_, by decide⟩,
+    ⟨⟨0, fwd_of_res _ _ _ _ _ (by decide)⟩, ?_, by decide, ?_, by decide⟩, trivial⟩
+  · intro i hi; simp [wkEnv, Env.block, lookup] at hi
+  · intro i hi; simp [wkEnv, Env.block, lookup] at hi
+  · intro i hi
+    have : i = 20 ∨ i = 21 := by simpa [wkEnv, Env.block, lookup] using hi
+    rcases this with rfl | rfl <;> exact ⟨by decide, by decide, by decide⟩
+  · intro i hi
+    have : i = 20 ∨ i = 21 := by simpa [wkEnv, Env.block, lookup] using hi
+    rcases this with rfl | rfl <;> exact absent_of_rows _ _ (by decide)
+example : PoolValid wkEnv wkS'.pool (canon wkEnv wkG wkS'.pointer) :=
+  ⟨⟨0, by decide⟩, ⟨by decide, by decide, by decide⟩, absent_of_rows _ _ (by decide), by decide, trivial⟩
+example :
+    let w := (walk wkEnv wkS' 0 3 false).1
+    let c := canon wkEnv wkG 3
+    w.pointer = 3 ∧ w.pool = [] ∧ w.U = c.U ∧ w.total = c.total ∧ w.ZU = c.ZU := by decide
 
 end XV.C01
